@@ -351,6 +351,11 @@ def _single(case):
         tr = ComplexAngularCentralGaussianTrainer()
         m, exc = call(tr.fit, y, iterations=1)
         comp, z, zc = 'cacg', flatz(ml.unit(y)), True
+    if m is None and dist == 'bingham' and sal is not None and exc in ('AssertionError', 'ValueError') \
+            and int(np.min(np.sum(sal > 0, axis=-1))) < D:
+        # fewer than D observations carry weight in some slice: the weighted scatter is singular and the Bingham maximum
+        # likelihood estimate does not exist (an eigenvalue of minus infinity); the trainer's explicit rejection is accepted
+        return []
     if m is None:
         return [dict(kind='mstep', exc=exc, fp=fp, key=key)]
 
